@@ -264,6 +264,7 @@ fn run_inner<P: Property>(args: &RunArgs, root: &PathBuf, start: Instant) -> i32
             P::repeat_every()
         ));
     }
+    rule.push_str(" Logging (framework): the odd-numbered worker processes, and every replay, run with a log sink at trace level installed, so the arguments of the library's log statements are evaluated; the even-numbered ones run with logging off.");
     if P::concurrent() {
         rule.push_str(" Concurrent use (framework): per worker an eighth of its cases (between 16 and 256; non-trivial ones that passed alone) are evaluated again from 4 threads at once, each thread starting at a different offset, and must pass again (class evaluated-concurrently).");
     }
